@@ -39,7 +39,7 @@ def run(ctx, replay):
     return ctx.finish(
         "model_checking",
         assumptions=["ground truth = System V loader semantics for PT_LOAD segments (gABI: offset and vaddr congruent modulo the page size), not any particular linker's habits",
-                     "ELF user space only; Mach-O, PE and the kernel heuristics are not covered",
+                     "ELF only (Mach-O and PE are not covered); kernel images: ground truth is link address + KASLR slide (or the ChromeOS remap of the relocation symbol into page 0) with a perf-style mapping that starts at the relocation symbol and an image called vmlinux or a mapping that is not page aligned - the documented blind spot (unnamed image, page-aligned _stext away from the segment start) is not enumerated",
                      "a lookup past the end of the last symbol may return that symbol or nothing",
                      "ElfBase.tla (Apalache, unbounded integers, not uint64 wrap-around) proves base = bias for the transcribed formula; the harness checks that elfexec.GetBase evaluates that formula on every enumerated case"],
         exhaustive=True)
